@@ -11,6 +11,7 @@ ID = "C06"
 ASSUMPTIONS = [
     "durations: integers >= 0 when no filter is installed, >= 1 when a filter (composition) is installed, as the property states",
     "histories dispatch any *ready* operation (not only the filtered ones) on any eligible machine",
+    "probe sub-spaces call min_start_time/earliest_start_time on the last ready operation before every reading of the clock",
     "completed sets are read from completed_operations() and compared by operation id",
 ]
 STUBS = ["max", "min", "int (dispatcher module only)"]
@@ -39,6 +40,7 @@ def subspaces(tier):
     s4, s3 = D.shapes(3, 4), D.shapes(3, 3)
     out += C.structure_subspaces(s4, 2, False, filter="none")
     out += C.structure_subspaces(s3, 2, True, only_flexible=True, filter="none")
+    out += C.structure_subspaces(s3 + [(2, 2), (2, 1, 1)], 2, False, filter="none", probe=True)
     for f in BUILTIN:
         out += C.structure_subspaces(s4, 2, False, filter=[f])
         out += C.structure_subspaces(s3, 2, True, only_flexible=True, filter=[f])
@@ -72,6 +74,12 @@ def harness(eng, sp):
 
     def read():
         try:
+            if sp.get("probe"):
+                # other public time queries asked first must not influence the clock
+                ready = spec.ready_ops()
+                if ready:
+                    disp.min_start_time([D.op_by_id(inst, ready[-1])])
+                    disp.earliest_start_time(D.op_by_id(inst, ready[-1]))
             now = disp.current_time()
             comp = sorted(o.operation_id for o in disp.completed_operations())
             return now, comp
